@@ -11,13 +11,14 @@ rsync -a --delete --exclude target /repo/ $D/ >/dev/null
 # files the patch touches get a fresh mtime before each build (cargo compares mtimes; a revert within the same second would reuse the patched build)
 PFILES=$(grep '^+++ b/' $SD/patch.diff | sed 's|^+++ b/||')
 for f in $PFILES; do [ -f "$f" ] && touch "$f"; done
-cp $SD/demo.rs conformance-tests/tests/seed_demo_$NAME.rs
-demo_without=$(cargo test -p conformance-tests --test seed_demo_$NAME --offline 2>&1 | grep -E "^test result" | head -1)
-if ! git apply --check $SD/patch.diff 2>/dev/null; then echo "{\"name\":\"$NAME\",\"applies\":false}"; rm -f conformance-tests/tests/seed_demo_$NAME.rs; exit 0; fi
+DEMO_PKG=${DEMO_PKG:-conformance-tests}; DEMO_DIR=${DEMO_DIR:-conformance-tests/tests}
+cp $SD/demo.rs $DEMO_DIR/seed_demo_$NAME.rs
+demo_without=$(cargo test -p $DEMO_PKG $DEMO_FEATURES --test seed_demo_$NAME --offline 2>&1 | grep -E "^test result" | head -1)
+if ! git apply --check $SD/patch.diff 2>/dev/null; then echo "{\"name\":\"$NAME\",\"applies\":false}"; rm -f $DEMO_DIR/seed_demo_$NAME.rs; exit 0; fi
 git apply $SD/patch.diff
 for f in $PFILES; do [ -f "$f" ] && touch "$f"; done
-demo_with=$(cargo test -p conformance-tests --test seed_demo_$NAME --offline 2>&1 | grep -E "^test result" | head -1)
-rm -f conformance-tests/tests/seed_demo_$NAME.rs
+demo_with=$(cargo test -p $DEMO_PKG $DEMO_FEATURES --test seed_demo_$NAME --offline 2>&1 | grep -E "^test result" | head -1)
+rm -f $DEMO_DIR/seed_demo_$NAME.rs
 suite=$(cargo test --workspace --no-fail-fast --offline 2>&1 | grep -E "^test result" | awk '{p+=$4; f+=$6} END{print p" passed, "f" failed"}')
 res=""
 for p in $PROPS; do
